@@ -58,7 +58,8 @@ def cases(rng, tier, Case):
             for em in re.finditer(r"\(\[([0-9; ]*)\], \[[0-9; ]*\]\)", m.group(1)):
                 names.append(bytes(int(x) for x in em.group(1).split(";")).decode())
     if tier == "quick":
-        names = rng.sample(names, min(len(names), 120)) + ["&amp;", "&lt;", "&gt;", "&quot;", "&nbsp;", "&ngE;", "&NotEqualTilde;", "&fjlig;", "&Tab;", "&NewLine;"]
+        by_len = sorted(names, key=len)
+        names = by_len[:15] + by_len[-25:] + rng.sample(names, min(len(names), 120)) + ["&amp;", "&lt;", "&gt;", "&quot;", "&nbsp;", "&ngE;", "&NotEqualTilde;", "&fjlig;", "&Tab;", "&NewLine;"]
     refs = names + numeric_refs(rng, tier) + ["\\" + c for c in PUNCT]
     for r in refs:
         for ctx, d in docs_for(r).items():
